@@ -994,6 +994,26 @@ var scenarioTable = map[string]func(s *sc){
 		s.flush(kinds("VC"))
 		s.flush(any)
 	},
+	// C09 (boundary of "holding a prepared certificate"): weights 1,4,3,2 (Q = 7); view 0 is lost; the Byzantine n2 (weight 3 = f) sends
+	// n1, the coming leader of view 1, a PREPARE for the block n1 is going to propose BEFORE n1 is elected.  After the election n1's log
+	// holds its proposal and PREPAREs of quorum weight, but n1 never became prepared there (nothing re-evaluates the log after its own
+	// proposal is stored) and signed no COMMIT; when it times out, its vote rightly carries no lock.
+	"prepare_of_the_coming_view_reaches_the_next_leader_before_its_election": func(s *sc) {
+		s.startNodes()
+		s.dropAll(any)
+		for _, i := range []int{0, 1, 3} {
+			s.timeout(i)
+		}
+		early := &vBlock{height: 1, body: "b1.n1.1"} // the block n1's consumer hands out for its first proposal
+		s.cl.addBody(early.body)
+		s.inject(1, s.adv.mkP(ref(protocol.LEAN_HELIX_PREPARE, 1, 1, early), s.cl.ids[2], ""), "p_byz_or_outsider")
+		s.flush(func(p pending, k string) bool { return k == "VC" && p.to == 1 }) // n1 is elected, proposes, holds proposal + quorum
+		s.dropAll(any)
+		s.timeout(1) // not prepared in view 1: the vote carries no lock
+		s.timeout(0)
+		s.timeout(3)
+		s.flush(any)
+	},
 	// lagging node (all honest): n3 receives the traffic of height 2 first (future cache), then height 1; the
 	// commit of height 1 starts round 2, whose drain commits height 2 in the middle (H11 in situ)
 	"lagging_node_drains_cached_height": func(s *sc) {
@@ -1040,14 +1060,15 @@ func scenarioByz(name string) []int {
 		"byzantine_commit_with_share_copied_from_a_genuine_commit", "vote_with_genuine_proof_and_another_block_to_a_leader_holding_the_proposal",
 		"commit_broadcast_fails_when_becoming_prepared_then_timeout":
 		return []int{3}
-	case "fork_via_proof_with_prepares_of_older_view", "heavy_pair_vote_with_unvalidated_block_but_no_proof", "round_of_another_instance_replayed_to_a_lagging_member":
+	case "fork_via_proof_with_prepares_of_older_view", "heavy_pair_vote_with_unvalidated_block_but_no_proof", "round_of_another_instance_replayed_to_a_lagging_member",
+		"prepare_of_the_coming_view_reaches_the_next_leader_before_its_election":
 		return []int{2}
 	}
 	return []int{1}
 }
 
 func scenarioWeights(name string) []uint64 {
-	if name == "heavy_pair_vote_with_unvalidated_block_but_no_proof" {
+	if name == "heavy_pair_vote_with_unvalidated_block_but_no_proof" || name == "prepare_of_the_coming_view_reaches_the_next_leader_before_its_election" {
 		return []uint64{1, 4, 3, 2}
 	}
 	return []uint64{1, 1, 1, 1}
